@@ -593,23 +593,26 @@ type Local struct {
 	w     *World
 	Async bool // informational: the case pumps the index FIFO itself instead of draining it after every operation
 
-	DB        anystore.DB
-	Space     spacestorage.SpaceStorage
-	Acl       list.AclList
-	App       *app.App
-	DelState  deletionstate.ObjectDeletionState
-	DelMgr    deletionmanager.DeletionManager
-	Deleter   deletionmanager.Deleter
-	order     *orderedState
-	Diff      *headsync.DiffManager
-	Settings  settings.SettingsObject
-	TM        *TreeManager
-	Trees     map[string]synctree.SyncTree // the host application's cache of opened trees
-	IndexQ    []headstorage.HeadsEntry
-	Requests  int // SendTreeRequest calls issued by this node (all lifetimes)
-	Fetched   int // of which answered with a tree
-	Running   bool
-	Lifetimes int
+	DB       anystore.DB
+	Space    spacestorage.SpaceStorage
+	Acl      list.AclList
+	App      *app.App
+	DelState deletionstate.ObjectDeletionState
+	DelMgr   deletionmanager.DeletionManager
+	Deleter  deletionmanager.Deleter
+	order    *orderedState
+	Diff     *headsync.DiffManager
+	Settings settings.SettingsObject
+	TM       *TreeManager
+	Trees    map[string]synctree.SyncTree // the host application's cache of opened trees
+	IndexQ   []headstorage.HeadsEntry
+	// DropRequests: full-sync requests a head-update handler returns are lost (the update's
+	// changes stay unattached in memory)
+	DropRequests bool
+	Requests     int // SendTreeRequest calls issued by this node (all lifetimes)
+	Fetched      int // of which answered with a tree
+	Running      bool
+	Lifetimes    int
 
 	// LastState is the state pointer the settings object last handed to the deletion manager.
 	LastState   *settingsstate.State
@@ -1063,6 +1066,10 @@ func (l *Local) Deliver(m *Msg) (res DeliverResult, err error) {
 	}
 	// requestmanager: send the request, feed the stream to the object's collector
 	res.Requested = true
+	if l.DropRequests {
+		w.Logf("  the full-sync request to member %d is lost", m.From)
+		return res, nil
+	}
 	or, ok := req.(*objectmessages.Request)
 	if !ok {
 		return res, fmt.Errorf("unexpected request type %T", req)
